@@ -7,6 +7,11 @@ ALL = ["C%02d" % i for i in range(1, 21)]
 
 # id -> (level category, engine, technique, level text, level note, design ref)
 CLAIMED = {
+    "C06": ("model_checking", "H",
+            "exhaustive enumeration of operation sequences (depth 5 over a 12-symbol alphabet quick, 21-symbol thorough: per-source content changes incl. regress and disappearance, source failures, Refresh, Refresh cancelled at each source, overlapping Refresh, lookups that hit / miss / hit a negative entry, List, TTL advances), each executed on a fresh real ProviderCache with two fake sources in a synctest bubble (virtual clock) and compared after every step with a reference model",
+            "Every sequence is an execution of the real cache (traces_validated_against_impl = sequences run; 90 484 quick, 1 633 640 thorough, both complete). After every refresh that returned nil each provider reported by a responding source must be served by Get and List with the freshest record ever handed to the cache; unreported providers stay until the TTL and go after it; a provider found absent is not fetched again; Get and List agree. History-dependence (stamps, expiry timers) is exactly what scripted single histories miss.",
+            "Reference model (trusted, ~120 lines); two sources, two reported providers; nothing is asserted right after a failed or cancelled refresh; expiry asserted only in histories where all sources responded since the last report.",
+            "DESIGN.md 6/C06, 13"),
     "C14": ("model_checking", "S",
             "stateless model checking (iterative context bounding, preemption bound 2 quick / 3 thorough) of the real subscriber built with the instrumentation overlay: N1 two publishers synced concurrently with a reading and a never-reading listener; N2 two successive syncs while a listener registers/cancels at scheduler-chosen moments and a reader checks the latest-synced value at the moment each event arrives; N3 failing announce-triggered sync",
             "Every explored schedule is an execution of the real code: each produced notification (CID, publisher, count = hook calls of that sync, error flag) must reach every listener registered before the sync was invoked and cancelled after it returned exactly once and in completion order; a never-read listener must not keep sync threads from finishing (quiescence, not a timeout, decides); cancelled listeners' channels end closed after their queued events; the latest-synced value already shows an event's CID when it is received. Evidence reports per scenario the bound all shards completed.",
